@@ -111,7 +111,7 @@ func runC14(cfg config) {
 		return "(Ok OOther)"
 	}
 	var strs []string
-	strs = append(strs, "", "a", "é", "😀", "abc", "aé€😀", "éx", "abcabc", "aaa", "中中a中", "QUJD", "//4AQcMo6Q==", "AAAA", "w6k=", "8J+YgA==", "abcdabcd")
+	strs = append(strs, "", "a", "é", "😀", "abc", "aé€😀", "éx", "abcabc", "aaa", "中中a中", "aaab", "éééa", "ababac", "😀😀😀é", "aabaab", "QUJD", "//4AQcMo6Q==", "AAAA", "w6k=", "8J+YgA==", "abcdabcd")
 	// exhaustive over length <= 2 of a 4-symbol sub-alphabet mixing 1-, 2-, 3- and 4-byte code points
 	sub := []rune{'a', 'é', '€', '😀'}
 	for _, x := range sub {
@@ -158,17 +158,28 @@ func runC14(cfg config) {
 				add(fmt.Sprintf("CSubstring %s %s (Some %s)", sq, coqZ(st), coqZ(l)), fmt.Sprintf("%%s.substring(%d, %d)", st, l), render(o, e, p, false), "substring2")
 			}
 		}
+		// cut at every k in [0, n+2] and join with &: the string comes back (also the empty string: both parts empty)
+		for k := 0; k <= n+2; k++ {
+			o, e, p := eval("%s.substring(0, %a) & %s.substring(%a)", s, "", evalopts.EnvVariable("a", system.Integer(int64(k))))
+			add(fmt.Sprintf("CSplit %s %s", sq, coqZ(int64(k))), fmt.Sprintf("%%s.substring(0, %d) & %%s.substring(%d)", k, k), render(o, e, p, false), "split")
+		}
 		// patterns: all substrings (short strings) or a sample, plus near misses
 		var pats []string
 		pats = append(pats, "", "a", "é", "😀", "zz", s, s+"a")
 		for i := 0; i <= n; i++ {
-			for j := i + 1; j <= n && j <= i+3; j++ {
+			for j := i + 1; j <= n && j <= i+4; j++ {
 				pats = append(pats, string(rs[i:j]))
 				pats = append(pats, string(rs[i:j])+"x")
 			}
 		}
 		if n > 6 && cfg.tier != "thorough" {
 			pats = pats[:12]
+		}
+		// patterns whose first occurrence starts inside a failed partial match (a self-overlapping prefix)
+		if n >= 3 {
+			for i := 1; i < n && i <= 3; i++ {
+				pats = append(pats, string(rs[i:]), string(rs[i:min(n, i+3)]))
+			}
 		}
 		seen := map[string]bool{}
 		for _, t := range pats {
